@@ -127,7 +127,17 @@ func serveOpLine(df *dataFile, qs []*query) string {
 	return fmt.Sprintf("serve %s %s", strings.Join(ls, ";"), strings.Join(ts, ";"))
 }
 
+// lines without explicit TTL / SOA timers: the documented tinydns defaults must be served
+var dfltLines = []string{
+	"+www.ex.com,1.2.3.4", "+www.ex.com,2001:db8::1", "=www.ex.com,1.2.3.4", "Cwww.ex.com,t.ex.com", "'www.ex.com,text",
+	"@ex.com,,mx1", "@ex.com,1.2.3.4,mx1,10", "Sex.com,,s1,443", "^4.3.2.1.in-addr.arpa,www.ex.com", ":ex.com,99,\\005hello",
+	"&ex.com,,a", "&ex.com,1.2.3.4,a", ".ex.com,,a", ".ex.com,1.2.3.4,a", "Zex.com,ns1.ex.com,hm.ex.com", "Zex.com,ns1.ex.com,hm.ex.com,7",
+}
+
 func c01gen(g *gen, tier string, w *bufio.Writer) {
+	for _, l := range dfltLines {
+		fmt.Fprintf(w, "dflt %s\n", hexTok([]byte(l)))
+	}
 	n := 40
 	if tier == "thorough" {
 		n = 1500
@@ -141,8 +151,45 @@ func c01gen(g *gen, tier string, w *bufio.Writer) {
 }
 
 // serveRun: op `serve <lines> <queries>` on all four storage configurations.
+// dfltRun: op `dflt <line>`: (type, ttl[, SOA timers]) of every record the real codec emits.
+func dfltRun(f []string) (string, string) {
+	c := newCodec("v1", serveSerial)
+	mr, err := c.ConvertLn(unhexTok(f[1]))
+	if err != nil {
+		return "err", "-"
+	}
+	var out []string
+	for _, m := range mr {
+		v := m.Value
+		if len(v) < 3 {
+			continue
+		}
+		typ := int(v[0])<<8 | int(v[1])
+		off := 3
+		if v[2] == '>' || v[2] == '+' {
+			off = 5
+		}
+		if len(v) < off+12 {
+			continue
+		}
+		ttl := uint32(v[off])<<24 | uint32(v[off+1])<<16 | uint32(v[off+2])<<8 | uint32(v[off+3])
+		s := fmt.Sprintf("%d:%d", typ, ttl)
+		if typ == 6 && len(v) >= 20 {
+			t := v[len(v)-20:]
+			for i := 0; i < 5; i++ {
+				s += fmt.Sprintf("/%d", uint32(t[4*i])<<24|uint32(t[4*i+1])<<16|uint32(t[4*i+2])<<8|uint32(t[4*i+3]))
+			}
+		}
+		out = append(out, s)
+	}
+	return strings.Join(out, ","), "-"
+}
+
 func serveRun(line string) (string, string) {
 	f := strings.Fields(line)
+	if f[0] == "dflt" && len(f) == 2 {
+		return dfltRun(f)
+	}
 	if f[0] != "serve" || len(f) != 3 {
 		return "bad-op", "-"
 	}
